@@ -167,7 +167,8 @@ def explore_config(args):
     eng = Engine()
     set_engine(eng)
     t0 = _now()
-    eng.deadline = t0 + opts.get('cfg_timeout', 300)
+    eng.deadline = symx._cpu() + opts.get('cfg_timeout', 300)
+    eng.wall_deadline = t0 + 8 * opts.get('cfg_timeout', 300)
     res = {'cfg': cfg, 'paths': 0, 'aborted': Counter(), 'counts': Counter(), 'failures': [],
            'validated': 0, 'validation_mismatch': [], 'inconclusive': None, 'samples': [],
            'states': 0, 'transitions': 0, 'post': None, 'capped': False}
